@@ -45,6 +45,9 @@ pub trait Tab: Sized + Clone + Eq + Ord + Hash + 'static {
     fn c_from_hex(n: usize, s: &str) -> Result<Self, ()>;
     fn c_from_cofactors(c0: &Self, c1: &Self, i: usize) -> Self;
     fn iter(n: usize) -> Box<dyn Iterator<Item = Self>>;
+    /// A program on the CONCRETE iterator type (so that any overridden Iterator method is the one
+    /// called): `nth(k)` for each k, then a consuming tail ("count" | "last" | "hint" | "none")
+    fn iter_prog(n: usize, ks: &[usize], tail: &str) -> serde_json::Value;
     fn bdd(list: &[Self]) -> usize;
     /// Lut -> LutN (N = own size) -> Lut
     fn conv_rt(&self) -> Result<Self, ()>;
@@ -71,6 +74,25 @@ pub trait Tab: Sized + Clone + Eq + Ord + Hash + 'static {
     fn canon(&self, kind: &str) -> (Self, Vec<u8>, u32);
     fn vnext(&mut self) -> bool;
     fn rel(&self, o: &Self, form: &str) -> serde_json::Value;
+}
+
+pub fn iter_prog_on<T: Tab, I: Iterator<Item = T>>(mut it: I, ks: &[usize], tail: &str) -> serde_json::Value {
+    use serde_json::json;
+    let item = |x: Option<T>| match x {
+        Some(t) => json!({"some": true, "t": crate::exec::enc(&t)}),
+        None => json!({"some": false}),
+    };
+    let items: Vec<serde_json::Value> = ks.iter().map(|&k| item(it.nth(k))).collect();
+    let t = match tail {
+        "count" => json!({"count": crate::exec::bits_of(it.count() as u64)}),
+        "last" => json!({"last": item(it.last())}),
+        "hint" => {
+            let (lo, hi) = it.size_hint();
+            json!({"lo": crate::exec::bits_of(lo as u64), "has_hi": hi.is_some(), "hi": crate::exec::bits_of(hi.unwrap_or(0) as u64)})
+        }
+        _ => json!({}),
+    };
+    json!({"items": items, "tail": t})
 }
 
 macro_rules! shared_methods {
@@ -324,6 +346,9 @@ impl Tab for Lut {
     fn iter(n: usize) -> Box<dyn Iterator<Item = Self>> {
         Box::new(Lut::all_functions(n))
     }
+    fn iter_prog(n: usize, ks: &[usize], tail: &str) -> serde_json::Value {
+        iter_prog_on(Lut::all_functions(n), ks, tail)
+    }
     fn bdd(list: &[Self]) -> usize {
         Lut::bdd_complexity(list)
     }
@@ -391,6 +416,10 @@ impl<const N: usize, const T: usize> Tab for StaticLut<N, T> {
     fn iter(n: usize) -> Box<dyn Iterator<Item = Self>> {
         assert_eq!(n, N, "HARNESS: size");
         Box::new(Self::all_functions())
+    }
+    fn iter_prog(n: usize, ks: &[usize], tail: &str) -> serde_json::Value {
+        assert_eq!(n, N, "HARNESS: size");
+        iter_prog_on(Self::all_functions(), ks, tail)
     }
     fn bdd(list: &[Self]) -> usize {
         Self::bdd_complexity(list)
